@@ -346,7 +346,7 @@ class CppRecord(CppBaseType):
     @property
     def constructor_comment(self):
         return '\n'.join(
-            [f"@param {field.cpp.name} {field.cpp.comment}" for field in self.decl.fields if field.comment is not None])
+            [f"@param {field.cpp.name} {field.cpp.comment}" for field in self.decl.fields if field.comment])
 
 
 class CppDataField(CppBaseField):
@@ -409,4 +409,4 @@ class CppErrorDomain(CppBaseType):
         def constructor_comment(self):
             return '\n'.join(
                 [f"@param {parameter.cpp.name} {parameter.cpp.comment}" for parameter in self.decl.parameters if
-                 parameter.comment is not None])
+                 parameter.comment])
